@@ -195,6 +195,8 @@ pub enum AckMode {
     Zero,
     Max,
     Rand(u32),
+    /// cookie+1 of ANOTHER flow of the case (index)
+    OtherFlow(u8),
 }
 
 #[derive(Clone, Debug, Serialize, Deserialize, PartialEq, Hash)]
@@ -214,6 +216,9 @@ pub enum Step {
     Udp { sport: u16, dport: u16, pay: Pay, len_lie: Option<u16> },
     Syn { flow: u8, flags: u16, seq: u32, payload: Hex },
     Seg { flow: u8, flags: u16, ack: AckMode, seq: Option<u32>, pay: Pay, doff: Option<u8>, opt_words: u8 },
+    /// an application payload delivered over a handshaken flow in several segments (cut positions
+    /// monotone-mapped; biased towards CR / LF / SP / ':' boundaries by `snap`)
+    SegSplit { flow: u8, pay: Pay, cuts: Vec<u16>, snap: bool },
     /// frame-level mutation of another step's frame
     Mut { inner: Box<Step>, muts: Vec<BMut> },
 }
@@ -231,6 +236,7 @@ impl Step {
             Step::Udp { pay, .. } => format!("udp/{}", pay.kind()),
             Step::Syn { .. } => "tcp-syn".into(),
             Step::Seg { pay, .. } => format!("tcp-seg/{}", pay.kind()),
+            Step::SegSplit { pay, .. } => format!("tcp-split/{}", pay.kind()),
             Step::Mut { inner, .. } => format!("framemut({})", inner.kind()),
         }
     }
@@ -265,7 +271,8 @@ pub fn step_leaf() -> BoxedStrategy<Step> {
             .prop_map(|(code, body, to_self_target)| Step::Ns { code, body: Hex(body), to_self_target }),
         6 => (port(), port(), pay(), prop::option::weighted(0.15, any::<u16>())).prop_map(|(sport, dport, pay, len_lie)| Step::Udp { sport, dport, pay, len_lie }),
         2 => (0u8..NFLOWS as u8, prop_oneof![3 => Just(F_SYN), 1 => (0u16..512).prop_map(|f| f | F_SYN)], any::<u32>(), prop_oneof![3 => Just(vec![]), 1 => vec(any::<u8>(), 0..20)]).prop_map(|(flow, flags, seq, p)| Step::Syn { flow, flags, seq, payload: Hex(p) }),
-        8 => (0u8..NFLOWS as u8, prop_oneof![6 => Just(F_PSH | F_ACK), 1 => (0u16..512).prop_map(|f| f | F_PSH | F_ACK), 1 => 0u16..512], prop_oneof![8 => Just(AckMode::Good), 1 => Just(AckMode::Cookie), 1 => Just(AckMode::Zero), 1 => any::<u32>().prop_map(AckMode::Rand)], prop::option::weighted(0.2, any::<u32>()), pay(), prop::option::weighted(0.1, 0u8..16), prop_oneof![5 => Just(0u8), 1 => 1u8..10])
+        3 => (0u8..NFLOWS as u8, pay(), vec(any::<u16>(), 1..4), any::<bool>()).prop_map(|(flow, pay, cuts, snap)| Step::SegSplit { flow, pay, cuts, snap }),
+        8 => (0u8..NFLOWS as u8, prop_oneof![6 => Just(F_PSH | F_ACK), 1 => (0u16..512).prop_map(|f| f | F_PSH | F_ACK), 1 => 0u16..512, 2 => prop::sample::select(vec![F_RST | F_ACK, F_FIN | F_ACK, F_ACK, F_RST, F_SYN | F_ACK, F_FIN, 0u16, F_FIN | F_PSH | F_ACK, F_URG | F_ACK, F_SYN | F_FIN, F_RST | F_FIN | F_ACK, F_SYN | F_RST, F_ECE | F_CWR | F_SYN, F_NS | F_ACK])], prop_oneof![8 => Just(AckMode::Good), 1 => Just(AckMode::Cookie), 1 => Just(AckMode::Zero), 1 => any::<u32>().prop_map(AckMode::Rand)], prop::option::weighted(0.2, any::<u32>()), pay(), prop::option::weighted(0.1, 0u8..16), prop_oneof![5 => Just(0u8), 1 => 1u8..10])
             .prop_map(|(flow, flags, ack, seq, pay, doff, opt_words)| Step::Seg { flow, flags, ack, seq, pay, doff, opt_words }),
     ]
     .boxed()
@@ -276,6 +283,7 @@ pub fn step_noise() -> BoxedStrategy<Step> {
     step_leaf()
         .prop_map(|s| match s {
             Step::Seg { flow, flags, seq, pay, doff, opt_words, .. } => Step::Seg { flow, flags, ack: AckMode::Cookie, seq, pay, doff, opt_words },
+            Step::SegSplit { flow, pay, .. } => Step::Seg { flow, flags: F_PSH | F_ACK, ack: AckMode::Cookie, seq: None, pay, doff: None, opt_words: 0 },
             other => other,
         })
         .boxed()
@@ -394,6 +402,7 @@ impl<'a> World<'a> {
                     AckMode::Zero => 0,
                     AckMode::Max => 0xffff_ffff,
                     AckMode::Rand(r) => *r,
+                    AckMode::OtherFlow(g) => self.cookie(*g as usize % NFLOWS).unwrap_or(0).wrapping_add(1),
                 };
                 let p = pay.bytes(true);
                 let sq = seq.unwrap_or(self.next_seq[fi]);
@@ -406,11 +415,63 @@ impl<'a> World<'a> {
                 h.doff = *doff;
                 tcp_frame(&net, &h, &p)
             }
+            Step::SegSplit { .. } => self.realize_multi(s).pop().unwrap_or_default(),
             Step::Mut { inner, muts } => {
                 let f = self.realize(inner);
                 apply_bmuts(f, muts)
             }
         }
+    }
+
+    /// frames of a step: one, except for SegSplit (one per segment)
+    pub fn realize_multi(&mut self, s: &Step) -> Vec<Vec<u8>> {
+        match s {
+            Step::SegSplit { flow, pay, cuts, snap } => {
+                let fi = *flow as usize % NFLOWS;
+                let cookie = self.cookie(fi).unwrap_or(0);
+                let p = pay.bytes(true);
+                let mut cs: Vec<usize> = cuts.iter().map(|c| pick(*c, p.len() + 1)).collect();
+                if *snap {
+                    // move each cut to just after the next CR / LF / SP / ':' (parser boundaries)
+                    for c in cs.iter_mut() {
+                        let mut k = *c;
+                        while k < p.len() && !matches!(p[k], b'\r' | b'\n' | b' ' | b':') {
+                            k += 1;
+                        }
+                        *c = (k + 1).min(p.len());
+                    }
+                }
+                cs.push(p.len());
+                cs.sort();
+                cs.dedup();
+                let mut out = Vec::new();
+                let mut prev = 0usize;
+                for e in cs {
+                    if e == prev && e != 0 {
+                        continue;
+                    }
+                    let f = &self.flows[fi];
+                    let sq = self.next_seq[fi];
+                    out.push(tcp_frame(&self.net, &TcpH::new(f.sport, f.dport, sq, cookie.wrapping_add(1), F_PSH | F_ACK), &p[prev..e]));
+                    self.next_seq[fi] = sq.wrapping_add((e - prev) as u32);
+                    prev = e;
+                }
+                out
+            }
+            other => vec![self.realize(other)],
+        }
+    }
+
+    /// send every frame of a step; returns (frame, outcome) pairs
+    pub fn send_all(&mut self, s: &Step) -> Vec<(Vec<u8>, Out)> {
+        let frames = self.realize_multi(s);
+        let mut v = Vec::with_capacity(frames.len());
+        for f in frames {
+            self.sent += 1;
+            let o = self.sut.frame(&f);
+            v.push((f, o));
+        }
+        v
     }
 
     pub fn send(&mut self, s: &Step) -> (Vec<u8>, Out) {
